@@ -13,6 +13,10 @@ KITS ?=
 CXXEXTRA ?=
 LDEXTRA ?=
 NOACCESS ?= 1
+# VX-SCHED: SCHED := 1 links the scheduler + tsan-ABI shim; TSAN_SRCS := coins.cpp node/miner.cpp ... compiles those
+# repo sources with -fsanitize=thread (atomics become scheduling points) and links them in front of the archives
+SCHED ?= 0
+TSAN_SRCS ?=
 -include $(SRC)/build.mk
 
 CXX := g++
@@ -45,9 +49,13 @@ ifneq ($(LINK),none)
 KITS += glue
 endif
 KITOBJS := $(patsubst %,$(BUILD)/kits/%.o,$(sort $(KITS)))
+ifeq ($(SCHED),1)
+SCHEDOBJS := $(BUILD)/vx/sched.o $(BUILD)/vx/tsanabi.o $(BUILD)/vx/sched_cb.o
+endif
+TSANOBJS := $(patsubst %.cpp,$(OUT)/tsan/%.o,$(TSAN_SRCS))
 
 all: $(OUT)/harness
-kits: $(KITOBJS)
+kits: $(KITOBJS) $(SCHEDOBJS)
 
 $(OUT)/%.o: $(SRC)/%.cpp
 	@mkdir -p $(OUT)
@@ -57,8 +65,20 @@ $(BUILD)/kits/%.o: $(VERIF)/kits/%.cpp
 	@mkdir -p $(BUILD)/kits
 	$(CXX) $(CXXFLAGS) -MMD -MP -c $< -o $@
 
-$(OUT)/harness: $(OBJS) $(KITOBJS) $(LIBS)
-	$(CXX) -pthread -o $@ $(OBJS) $(KITOBJS) $(LIBS) $(SYSLIBS) $(LDEXTRA)
+$(BUILD)/vx/%.o: $(VERIF)/vx/%.c
+	@mkdir -p $(BUILD)/vx
+	gcc -O1 -g0 -c $< -o $@
 
--include $(OBJS:.o=.d) $(KITOBJS:.o=.d)
+$(BUILD)/vx/%.o: $(VERIF)/vx/%.cpp
+	@mkdir -p $(BUILD)/vx
+	$(CXX) -O1 -g0 -std=c++20 -I$(VERIF) -c $< -o $@
+
+$(OUT)/tsan/%.o: $(REPO)/src/%.cpp
+	@mkdir -p $(dir $@)
+	$(CXX) $(CXXFLAGS) -fsanitize=thread -MMD -MP -c $< -o $@
+
+$(OUT)/harness: $(OBJS) $(TSANOBJS) $(KITOBJS) $(SCHEDOBJS) $(LIBS)
+	$(CXX) -pthread -o $@ $(OBJS) $(TSANOBJS) $(KITOBJS) $(SCHEDOBJS) $(LIBS) $(SYSLIBS) $(LDEXTRA)
+
+-include $(OBJS:.o=.d) $(KITOBJS:.o=.d) $(TSANOBJS:.o=.d)
 .PHONY: all kits
